@@ -737,5 +737,11 @@ def _differential(interp, contract, inst, nm, pb, tol, real_call, ctx):
                 return {"status": "skip", "why": f"result not comparable: {e}", **info}
     # frame: inputs unchanged is checked by the caller through snapshots when requested
     info["status"] = "mismatch" if mism else "ok"
+    tag = getattr(ctx, "oblig_tag", "")
+    if tag:
+        # the spec named the case of the statement this input falls in (see SpecCtx.tag)
+        for m in mism:
+            m.where = f"{m.where}[{tag}]"
+        info["case"] = tag
     info["mismatches"] = [repr(m) for m in mism[:5]]
     return info
